@@ -25,3 +25,44 @@ def writeMessage (m : Message) : Bytes :=
   le64 (UInt64.ofNat (16 + m.body.length)) ++ le64 m.typ ++ m.body
 
 end Desync
+
+namespace Desync
+
+/-- `SendProtocolChunk(id, flags, chunk)` -/
+def chunkMessage (id : Bytes) (flags : UInt64) (data : Bytes) : Message :=
+  ⟨Gen.CaProtocolChunk, le64 flags ++ id ++ data⟩
+
+/-- `SendMissing(id)` -/
+def missingMessage (id : Bytes) : Message := ⟨Gen.CaProtocolMissing, id⟩
+
+/-- `SendProtocolRequest(id, flags)` -/
+def requestMessage (id : Bytes) (flags : UInt64) : Message := ⟨Gen.CaProtocolRequest, le64 flags ++ id⟩
+
+inductive ReqRes
+  | chunk (raw : Bytes)     -- handed to NewChunkFromStorage(id, raw, {Compressor}, verify)
+  | missing
+  | error
+  deriving DecidableEq, Repr
+
+/-- how `Protocol.RequestChunk` interprets the server's reply -/
+def interpretReply (m : Message) : ReqRes :=
+  if m.typ = Gen.CaProtocolMissing then .missing
+  else if m.typ = Gen.CaProtocolChunk then
+    if m.body.length < 40 then .error else .chunk (m.body.drop 40)
+  else .error
+
+/-- outcome of the server's store for one request -/
+inductive StoreAns | data (compressed : Bytes) | missing | failure
+  deriving DecidableEq, Repr
+
+/-- `ProtocolServer.Serve` over a sequence of requests: the replies sent, and whether the session is
+    still open afterwards (a store failure ends it; a missing chunk does not) -/
+def serveRequests : List (Bytes × StoreAns) → List Message × Bool
+  | [] => ([], true)
+  | (id, ans) :: rest =>
+    match ans with
+    | .failure => ([], false)
+    | .missing => let (ms, open_) := serveRequests rest; (missingMessage id :: ms, open_)
+    | .data c => let (ms, open_) := serveRequests rest; (chunkMessage id 1 c :: ms, open_)
+
+end Desync
